@@ -34,6 +34,7 @@ func (o *didOracle) Step(e *Env, si *StepInfo) {
 	d := cur.Did
 	// tables: every bound account is in exactly one account list and the tables agree
 	seenAcc := map[string]string{}
+	ethAcc := map[string]string{}
 	for _, did := range sortedKeys(d.AccountLists) {
 		for _, ad := range d.AccountLists[did] {
 			if _, ok := d.AccountAuths[ad]; !ok {
@@ -48,6 +49,14 @@ func (o *didOracle) Step(e *Env, si *StepInfo) {
 				o.once(e, "C17.tables", lab, "account-in-two-lists", accId, fmt.Sprintf("account %s appears in the account lists of %s and %s", accId, other, did))
 			}
 			seenAcc[accId] = did
+			// an Ethereum account is the same account however its hex address is capitalised
+			if strings.HasPrefix(accId, "eip155:") {
+				norm := strings.ToLower(accId)
+				if other, dup := ethAcc[norm]; dup && other != did {
+					o.once(e, "C17.tables", lab, "account-bound-to-two-dids", norm, fmt.Sprintf("Ethereum account %s is bound to both %s and %s (different capitalisation of the same address)", norm, other, did))
+				}
+				ethAcc[norm] = did
+			}
 			if d.Dids[accId] != did {
 				o.once(e, "C17.tables", lab, "listed-account-not-bound", accId, fmt.Sprintf("account %s is in the list of %s but its binding says %q", accId, did, d.Dids[accId]))
 			}
